@@ -8,6 +8,7 @@ import (
 	"bytes"
 	"fmt"
 	"io"
+	"os"
 	"regexp"
 	"runtime"
 	"sort"
@@ -327,10 +328,19 @@ func Walk(e *core.Env, img []byte, mode pdf.ReaderErrorHandling, password string
 	var st stats
 	var ms0, ms1 runtime.MemStats
 	runtime.ReadMemStats(&ms0)
+	work0 := core.WorkNow()
+	var pkg0 map[string]int64
+	if os.Getenv("VSIM_CALIB") != "" {
+		pkg0 = core.WorkByPackage()
+	}
 	leaked := e.InBubble(func() {
 		walk(img, mode, password, eofAtEnd, &st)
 	})
+	ticks := core.WorkNow() - work0
 	runtime.ReadMemStats(&ms1)
+	if core.WorkActive() {
+		calib(ticks, int64(len(img)), &st, pkg0)
+	}
 	e.Steps(st.gets + st.streams + st.pages)
 	if st.opened {
 		e.Probe("NewReader succeeded")
@@ -559,4 +569,37 @@ var corners = map[string]func(e *core.Env){
 		}
 		e.Probe("type1 corner walked")
 	},
+}
+
+var calibMax float64
+
+func calib(ticks, in int64, st *stats, pkg0 map[string]int64) {
+	if os.Getenv("VSIM_CALIB") == "" {
+		return
+	}
+	top := ""
+	{
+		now := core.WorkByPackage()
+		type kv struct {
+			k string
+			v int64
+		}
+		var l []kv
+		for k, v := range now {
+			if d := v - pkg0[k]; d > 0 {
+				l = append(l, kv{k, d})
+			}
+		}
+		sort.Slice(l, func(i, j int) bool { return l[i].v > l[j].v })
+		for i := 0; i < len(l) && i < 4; i++ {
+			top += fmt.Sprintf(" %s=%d", l[i].k, l[i].v)
+		}
+	}
+	r := float64(ticks) / float64(in+st.drained+1)
+	if r > calibMax && ticks > 100000 {
+		calibMax = r
+		f, _ := os.OpenFile(fmt.Sprintf("/tmp/c05calib.%d", os.Getpid()), os.O_APPEND|os.O_CREATE|os.O_WRONLY, 0o644)
+		fmt.Fprintf(f, "ratio=%.1f\tticks=%d\tin=%d\tdrained=%d\tbudgets=%d\tstreams=%d\tgets=%d\tpages=%d\tfonts=%d\ttop:%s\n", r, ticks, in, st.drained, st.budgets, st.streams, st.gets, st.pages, st.fonts, top)
+		f.Close()
+	}
 }
